@@ -299,6 +299,14 @@ func pipeDelivery(l *pipeLog, rng *rand.Rand, nkeys, nposters, nposts int, useCh
 			prng := rand.New(rand.NewSource(int64(p)*7919 + rng.Int63()))
 			for n := 0; n < nposts; n++ {
 				ev := tcell.NewEventInterrupt([2]int{p, n})
+				if p == 2 { // the third poster waits for room instead: always accepted, logged before the (blocking) call
+					atomic.AddInt64(&expectTotal, 1)
+					l.mu.Lock()
+					l.tw.Emit(trace.Ev{"ev": "Post", "p": p, "n": n, "ok": true, "full": false, "wait": true, "seq": seq(), "at": us(time.Now())})
+					l.mu.Unlock()
+					s.PostEventWait(ev)
+					continue
+				}
 				l.mu.Lock() // the call and its log line are one step: posting order = log order per poster
 				err := s.PostEvent(ev)
 				ok := err == nil
